@@ -93,7 +93,7 @@ func famFullModes(depth int) SeqModel {
 func init() {
 	registry["C06"] = func() Check {
 		return &SeqCheck{Prop: "C06",
-			Ideal: famState(5), IdealProps: []string{"P_C06", "P_C10"}, IdealInvs: []string{"CodeReadyIsSpecReady"}, Probes: probeBlankAgents,
+			Ideal: famState(5), IdealProps: []string{"P_C06", "P_C10"}, IdealInvs: []string{"CodeReadyIsSpecReady"}, Probes: probeBlankAgents, Extra: inductiveClaimRule,
 			Proc: &ProcCheck{Prop: "C06", Scenarios: "StateScenarios", IdealInvs: []string{"Serializable"}, Only: []string{"C06_serial", "C06_final"}},
 			GenQuick: famState(3), GenThorough: famState(5), SampleQuick: 150,
 			Sim: with(famState(12), func(m *SeqModel) { m.MaxTasks = 3; m.Extras = append(m.Extras, "modes") }), SimNumQuick: 80, SimNumThorough: 2000}
